@@ -49,6 +49,16 @@ func importPub(t *rapid.T, p ref.Pt, route string) *secec.PublicKey {
 		src := lib.Pt(p)
 		k, err = secec.NewPublicKeyFromPoint(src)
 		src.Identity() // the caller goes on using its point; the key must hold its own copy
+	case "point-after-failed-decode":
+		// the caller's Point object was the receiver of a rejected decode first (documented: "returns nil and
+		// an error, and the receiver is unchanged"), then becomes a key
+		src := lib.Pt(p)
+		bad, kind := rejectedEncoding(t, p)
+		if got, e := src.SetBytes(bad); e == nil || got != nil {
+			t.Fatalf("SetBytes accepted the invalid encoding %x [%s]", bad, kind)
+		}
+		k, err = secec.NewPublicKeyFromPoint(src)
+		src.Identity()
 	case "point-derived":
 		q := secp256k1.NewIdentityPoint().Add(lib.Pt(p), secp256k1.NewGeneratorPoint())
 		q.Subtract(q, secp256k1.NewGeneratorPoint())
@@ -67,7 +77,41 @@ func overwrite(b []byte) {
 	}
 }
 
-var routes = []string{"uncompressed", "compressed", "spki", "spki-compressed", "point", "point-derived"}
+var routes = []string{"uncompressed", "compressed", "spki", "spki-compressed", "point", "point-derived", "point-after-failed-decode"}
+
+// rejectedEncoding draws an encoding every decoder must reject, one per
+// failure class (each class fails at a different stage of the decoder).
+func rejectedEncoding(t *rapid.T, p ref.Pt) ([]byte, string) {
+	kind := gen.Sampled([]string{"nonresidue-x", "nonresidue-x", "x>=p", "off-curve-y", "bad-prefix", "bad-length", "hybrid"}).Draw(t, "reject-kind")
+	switch kind {
+	case "nonresidue-x": // canonical x with x^3 + 7 a non-residue (a point of the twist)
+		x := gen.Int256(t, ref.P, "twist-x")
+		for {
+			if _, ok := ref.LiftX(x, false); !ok {
+				break
+			}
+			x = ref.AddM(x, big.NewInt(1), ref.P)
+		}
+		return append([]byte{byte(2 + rapid.IntRange(0, 1).Draw(t, "twist-par"))}, ref.B32(x)...), kind
+	case "x>=p":
+		return append([]byte{2}, ref.B32(new(big.Int).Add(ref.P, gen.Small(t, "over")))...), kind
+	case "off-curve-y":
+		b := p.Uncompressed()
+		b[64] ^= 1
+		return b, kind
+	case "bad-prefix":
+		b := p.Compressed()
+		b[0] = gen.Sampled([]byte{0, 1, 5, 8, 0x82, 0xff}).Draw(t, "prefix")
+		return b, kind
+	case "hybrid":
+		b := p.Uncompressed()
+		b[0] = 6 + b[64]&1
+		return b, kind
+	default:
+		b := p.Compressed()
+		return b[:len(b)-1-rapid.IntRange(0, 3).Draw(t, "cut")], kind
+	}
+}
 
 // checkPubKey: every cached / derived encoding equals the reference encoding.
 func checkPubKey(t *rapid.T, k *secec.PublicKey, p ref.Pt, what string) {
